@@ -386,6 +386,34 @@ func c09Gen(t *rapid.T) c09Case {
 	return c
 }
 
+// c09GenMany: collections of 40..300 regions (sizes that cross any block, window or threshold an implementation may
+// have): many short segments and a few long ones that cover dozens of them.
+func c09GenMany(t *rapid.T) c09Case {
+	n := rapid.IntRange(200, 3000).Draw(t, "n")
+	nr := rapid.SampledFrom([]int{40, 63, 64, 65, 66, 100, 127, 128, 129, 130, 200, 255, 256, 257, 300}).Draw(t, "nregions")
+	c := c09Case{N: n}
+	for i := 0; i < nr; i++ {
+		r := c09Region{Bare: rapid.Bool().Draw(t, "bare")}
+		ns := rapid.SampledFrom([]int{1, 1, 1, 2, 3}).Draw(t, "nsegs")
+		for j := 0; j < ns; j++ {
+			a := rapid.IntRange(0, n).Draw(t, "a")
+			l := rapid.IntRange(0, 8).Draw(t, "len")
+			if rapid.IntRange(0, 24).Draw(t, "long") == 0 {
+				l = rapid.IntRange(n/10, n/2).Draw(t, "longlen")
+			}
+			b := minInt(n, a+l)
+			if rapid.IntRange(0, 3).Draw(t, "rev") == 0 {
+				a, b = b, a
+			}
+			r.Segs = append(r.Segs, [2]int{a, b})
+		}
+		c.Regions = append(c.Regions, r)
+	}
+	c.Perm = rapid.Permutation(seqInts(nr)).Draw(t, "perm")
+	c.Flip = rapid.SliceOfN(rapid.Bool(), nr, nr).Draw(t, "flip")
+	return c
+}
+
 func seqInts(n int) []int {
 	out := make([]int, n)
 	for i := range out {
@@ -397,6 +425,37 @@ func seqInts(n int) []int {
 func TestC09(t *testing.T) {
 	st := newStats("C09")
 	defer st.flush()
+	// one long segment with k short ones inside it (a gene and its exons), k around every power of two up to 256, the
+	// long one first, last or in the middle of the list, forward or backward
+	emany := enumPart(t, c09Prop, st, "gene-and-exons")
+	for _, k := range []int{1, 2, 3, 11, 12, 13, 15, 16, 17, 31, 32, 33, 62, 63, 64, 65, 66, 70, 127, 128, 129, 130, 255, 256, 257, 300} {
+		for variant := 0; variant < 6; variant++ {
+			n := 120 + 15*k
+			gene := c09Region{Segs: [][2]int{{100, n - 20}}, Bare: variant%2 == 0}
+			if variant >= 3 {
+				gene.Segs[0] = [2]int{n - 20, 100}
+			}
+			var rr []c09Region
+			for i := 0; i < k; i++ {
+				rr = append(rr, c09Region{Segs: [][2]int{{100 + 15*i + 3, 100 + 15*i + 12}}, Bare: i%3 == 0})
+			}
+			at := []int{0, k, k / 2}[variant%3]
+			rr = append(rr[:at], append([]c09Region{gene}, rr[at:]...)...)
+			c := c09Case{N: n, Regions: rr, Perm: seqInts(len(rr)), Flip: make([]bool, len(rr))}
+			for i := range c.Perm {
+				c.Perm[i] = len(rr) - 1 - i
+				c.Flip[i] = i%2 == 0
+			}
+			if !emany.try(c) {
+				return
+			}
+		}
+	}
+	emany.done(true)
+	rapidPart(t, c09Prop, st, "rapid-many-segments", pick(600, 8000), c09GenMany)
+	if t.Failed() {
+		return
+	}
 	rapidPart(t, c09Prop, st, "rapid", pick(40000, 400000), c09Gen)
 	if t.Failed() {
 		return
